@@ -10,6 +10,7 @@
      nodim_valid d0 a   : x, y, level >= 0 and the dimension values are the fixed d0 (arcgis: finding F4);
      quad_valid d0 a    : additionally x, y < 2^level (quadkey: finding F4);
      compact_valid d0 a : x, y, level >= 0, dimensions fixed (the loader refuses dimension layers here);
+     sql_valid d0 a     : dimensions fixed (same reason);
      fop_ok V n o       : all addresses of operation o satisfy V, stored payloads are n pixels with 24 bit colours
                           (one tile size per cache: single-colour payloads are canonical per colour). *)
 From Coq Require Import ZArith List Bool String.
@@ -186,18 +187,23 @@ Theorem batching_complete_geopackage :
     Forall (fun b => List.length b = (3 * (List.length b / 3))%nat /\ (List.length b <= 999)%nat) (map (flat_map (sel [0; 1; 2])) ps).
 Proof. exact (fun cs => batching_complete gpkg_params cs gpkg_params_good). Qed.
 
-(* PARTIAL: MBTilesCache / GeopackageCache refine the map on histories WITHOUT bulk loads.  Missing: that the
-   bulk load (dictionary of tile objects + batched SELECTs, modelled in SqlCache.bulk_load) returns what the
-   per-tile loads return for duplicate-free requests, and the per-level dispatch of MBTilesLevelCache /
-   GeopackageLevelCache; both are covered by the correspondence check only. *)
-Theorem sqlite_behaves_like_a_map_partial :
-  forall d0 ops, ops_ok (sql_valid d0) ops -> Forall no_bulk_load ops ->
+(* MBTilesCache / GeopackageCache (one database): every history, bulk loads of any size included (also requests
+   that name a coordinate more than once: every tile object of the request is filled), answers like the map. *)
+Theorem sqlite_behaves_like_a_map :
+  forall d0 ops, ops_ok (sql_valid d0) ops ->
     model_outs BMbtiles ops = spec_outs ops /\ model_outs BGpkg ops = spec_outs ops.
-Proof. exact sql_refines_partial. Qed.
+Proof. exact sql_refines. Qed.
 
-(* PARTIAL, same statement for the per-level variants (MBTilesLevelCache, GeopackageLevelCache: one database
-   file per level): equal x/y at different levels, level 0 included; bulk loads excluded as above. *)
-Theorem sqlite_per_level_behaves_like_a_map_partial :
-  forall d0 ops, ops_ok (sql_valid d0) ops -> Forall no_bulk_load ops ->
+(* MBTilesLevelCache / GeopackageLevelCache (one database file per level): the same, with the per-level dispatch
+   of stores, loads and bulk loads; equal x/y at different levels and level 0 included. *)
+Theorem sqlite_per_level_behaves_like_a_map :
+  forall d0 ops, ops_ok (sql_valid d0) ops ->
     model_outs BSqlite ops = spec_outs ops /\ model_outs BGpkgLevel ops = spec_outs ops.
-Proof. exact level_sql_refines_partial. Qed.
+Proof. exact level_sql_refines. Qed.
+
+(* The bulk load itself: for the constants extracted from the source and a database with its unique index, the
+   call returns, for every tile of the request, what a single load returns, and True exactly when all are found. *)
+Theorem bulk_load_equals_single_loads :
+  forall p d cs, good_params p -> db_wf d ->
+    bulk_load p d cs = Some (forallb is_some (map (db_get d) cs), map (db_get d) cs).
+Proof. exact bulk_load_correct. Qed.
